@@ -63,6 +63,30 @@ CLAIMED = {
             "Proof: for every SPS value within the standard's ranges (wf_sps: all 13 chroma-info profiles, chroma formats, bit depths, 8/12 scaling lists given by their delta_scale values with wrap-around / early termination / use-default, POC types with <= 255 offsets, frame/field/MBAFF, cropping, every VUI/HRD sub-structure, 32-bit Exp-Golomb values) parsing enc_sps(x) ++ trailing bits returns exactly x (derived scaling lists included), and succeeds iff what follows the structure is 1 0^k; the model's chroma-info profile list equals the implementation's (dumped table). Converse proved in part (C04_converse_partial: every accepted input is consumed front to back into a value satisfying inv_sps); the bit-exact re-encoding of accepted inputs is checked by correspondence + generator only. Tied to SeqParameterSet::from_bits on >40k generated cases per run (full Debug rendering + derived values).",
             "Trusted: Coq kernel; Spec/SyntaxSps.v is a hand transcription of 7.3.2.1.1, 7.3.2.1.1.1, E.1.1, E.1.2.",
             "DESIGN.md 5 C04"),
+    "C02": ("Coq proof of the specification law unescape(escape p) = p and of escape's start-code freedom; the streaming refinement is decided by exhaustive small-scope differential execution against the Coq model and an independent reference unescape",
+            "Partial proof: Spec/Escape.v states 7.4.1 as functions of the whole byte string; unescape (escape p) = Some p and the refusal of 00 00 00 / 00 00 03 xx(>03) are theorems. The refinement of the chunked, windowed ByteReader model (any chunking, read/fill_buf/consume interleaving, skip, window size; one-shot decoder and its Cow variant) to unescape is NOT yet a theorem: it is checked on every run by exhaustive execution (all strings <= 6 over {00,01,03,04} x all partitions x 4 read styles x skips 0..2 x hook windows 1..4; escapes and forbidden sequences around offsets 125..131 / 253..259 of 120..4000-byte chunks; random escaped payloads), model = implementation on every operation result, implementation = reference unescape on drains and decode_nal.",
+            "Trusted: Coq kernel for the stated theorems; for the refinement the generator bounds detection (D1-type defects need chunks > 128 bytes: covered by the window cases and the corpus).",
+            "DESIGN.md 5 C02"),
+    "C05": ("Coq weakest-precondition proof for accepted PPS (ranges, context reference, slice-group shapes, scaling-list counts) + exact tail detection lemma; forward round trip by differential execution on generated conforming PPS",
+            "Partial proof: every accepted PPS (any input, any context of accepted SPS incl. 2^32-macroblock sizes) satisfies inv_pps - ids in range, referenced SPS in the context, map type 0 with 2..8 run lengths, type 2 with n rectangles (top_left <= bottom_right), type 6 ids < 8, ref counts <= 32, offsets in range, 6+(2|6) picture scaling lists - consumes its input front to back and never aborts; the optional tail is detected exactly when data precedes the trailing bits. The forward round trip against a spec encoder of 7.3.2.2 is not yet a theorem; it is checked by correspondence (all 7 map types x 2..8 groups x tail on/off x list shapes x SPS variants, boundary values, malformed variants).",
+            "Trusted: Coq kernel; Python generator/encoder for the conforming streams (shapes inputs only).",
+            "DESIGN.md 5 C05"),
+    "C06": ("Coq weakest-precondition proof through the whole slice-header model (fuelled loops included) for accepted headers; conditional-presence and reader position by differential execution over all flag combinations",
+            "Partial proof: for every input and every context of accepted sets slice_header_read never aborts (its unbounded loops never run out of fuel), consumes front to back, and an accepted header satisfies inv_slice (the returned ids name the context's PPS and the SPS it refers to; frame_num / POC lsb below the declared moduli; ref counts <= 32; QS 0..51; qp delta <= 51; deblocking idc <= 6). That each conditional element is read exactly under the standard's condition, and that the reader stops on the first bit of slice data, is checked by correspondence: all slice types x NAL types x ref_idc x 2^13 context flag combinations with boundary values; the 16 bits after the header must be the generated slice data.",
+            "Trusted: Coq kernel; Python encoder of 7.3.3 shapes the inputs.",
+            "DESIGN.md 5 C06"),
+    "C11": ("Coq theorems about the T.35 parser and its dumped table (complete sweep), totality of buffering_period / pic_timing; Annex D round trips by differential execution over all VUI shapes",
+            "Partial proof: T.35: the country code (or extension byte) is returned and the remainder starts immediately after it; the model's table equals the implementation's on all 256 first bytes incl. consumed length; distinct codes give distinct values. buffering_period / pic_timing never abort on any payload under any accepted SPS. Their value-level round trip (delay pairs per CPB per present HRD, delays whenever either HRD is present with that HRD's widths, NumClockTS timestamps, signed time offset) is checked by correspondence over VUI shapes {none, NAL, VCL, both} x CPB counts (different per HRD) x widths x time_offset_length x pic_struct 0..15.",
+            "Trusted: Coq kernel; Python encoder of D.1.1/D.1.2 shapes the inputs.",
+            "DESIGN.md 5 C11"),
+    "C12": ("Composition of proved links (C01 framing, C08 accumulation, escape/unescape laws) + differential execution of the whole pipeline model against AnnexBReader::accumulate with a parsing handler",
+            "Partial proof: the links are theorems (units = segmentation for every partition; one complete invocation per NAL with all bytes; escape produces no start codes and unescape inverts it); the composed statement (segment (annexb_encode nals) = nals, and parsing inside the handler = parsing alone) is executed, not proved: generated SPS/PPS/SEI/slice sequences with 3-/4-byte start codes, zero padding, payloads to 8 KiB x partitions {1,2,3,127,128,129,16,32,64,random,whole} x Buffer/Ignore policies, also with parameter sets from an AVC configuration record; every NAL also parsed alone in the same run.",
+            "Trusted: Coq kernel for the links; pipeline glue (Model/Driver.v) validated by correspondence only.",
+            "DESIGN.md 5 C12"),
+    "C17": ("Coq proof that the bit-reader primitives, the parser combinators and the whole SPS parser are monotone under extension of an incomplete source; prefix sweeps by differential execution with a cross-check of prefix vs whole outcomes",
+            "Partial proof: `mono` (on a prefix with tail WouldBlock a parser blocks, or returns the same value as on the whole, or fails where the whole fails) holds for read_bool/read_u/read_ue/read_se/skip/has_more_rbsp_data, is preserved by bind, lift, map_err and counted loops, hence for the whole SPS parser; SPS (finish_rbsp) never succeeds on a proper prefix and finish_sei_payload neither. PPS, slice header and SEI reader (fuelled loops, byte-level reader) are checked by correspondence: every prefix length of generated and mutated NALs in random chunkings, prefix outcome compared with the complete NAL's, each command executed twice with a dirty SEI scratch buffer.",
+            "Trusted: Coq kernel; purity is by construction in the model and observed on the crate.",
+            "DESIGN.md 5 C17"),
 }
 
 PENDING_REASON = "not claimed yet in this revision: model and theorems for this layer are still being built (see DESIGN.md section 9 for the order of work)"
